@@ -1,6 +1,7 @@
 package main
 
 import (
+	"crypto/tls"
 	"fmt"
 	"strings"
 	"sync"
@@ -315,7 +316,14 @@ func c08run(idx int) run.Result {
 	waits := make([]func(time.Duration) double.ServeResult, w.Conns)
 	for i := range conns {
 		conns[i] = sconn.New(sconn.Script{End: sconn.Hold})
-		waits[i] = double.Start(srv, conns[i], nil)
+		// in every fourth case the odd connections arrive the way connections of the TLS port do: with a completed
+		// handshake (no common-name rule is configured, so the certificate check has nothing to refuse). The
+		// password gate is the same for them.
+		var st any
+		if idx%4 == 3 && i%2 == 1 {
+			st = &tls.ConnectionState{HandshakeComplete: true}
+		}
+		waits[i] = double.Start(srv, conns[i], st)
 	}
 	defer func() {
 		for i := range conns {
@@ -452,7 +460,7 @@ func init() {
 		ID: "C08", Level: "exploration",
 		Rule: func(tier string) string {
 			l1 := map[string]int{"quick": 3, "thorough": 4}[tier]
-			return fmt.Sprintf("case = one word of requests over 1..3 lock-step scripted connections (hook H1) on a server with SetRequirePass(%q) after Start() on a loopback port - batches of 400 cases rotate over five ways the server came to require that password (the fifth: the application calls SetRequirePass on the running server after AUTHs have already been handled): freshly started with it; started with another password, stopped, reconfigured and started again; started without a password and then told CONFIG SET requirepass by a client; started with another password and then told CONFIG SET requirepass by an authorized client, without a restart (the previous password is one more wrong candidate of the dictionary); the driver delivers one request to one chosen connection and waits for its reply, so an interleaving is a word over (connection, request). Alphabet (1 connection): AUTH with each candidate of a dictionary around the password ('', null bulk, every strict prefix, password+suffix, +NUL, NUL+, case variants, CRLF inside/after, leading space, the password), AUTH with 0 and 3 arguments, two-argument forms (4 user names x wrong passwords, wrong user + right password, ''/default + right password) and 8 data commands; ALL words of length <=%d on 1 connection, ALL words of length <=4 on 2 connections and <=3 on 3 connections over the reduced alphabet {AUTH P, AUTH '', AUTH prefix, GET, PING} x connection index; then seeded random words up to length 30. Monitor = per-connection shadow automaton {unauth,auth}; violations: a handler call or non-error reply to a non-AUTH request on an unauth connection, a wrong AUTH answered non-error, the exact one-argument AUTH not answered +OK, an authorized connection refused after a failed AUTH, authorization leaking between connections. distinct = the word; non-trivial = length >= 2", c08pass, l1)
+			return fmt.Sprintf("case = one word of requests over 1..3 lock-step scripted connections (hook H1) on a server with SetRequirePass(%q) after Start() on a loopback port - batches of 400 cases rotate over five ways the server came to require that password (the fifth: the application calls SetRequirePass on the running server after AUTHs have already been handled): freshly started with it; started with another password, stopped, reconfigured and started again; started without a password and then told CONFIG SET requirepass by a client; started with another password and then told CONFIG SET requirepass by an authorized client, without a restart (the previous password is one more wrong candidate of the dictionary); in every fourth case the odd connections carry a TLS connection state, as connections of the TLS port do; the driver delivers one request to one chosen connection and waits for its reply, so an interleaving is a word over (connection, request). Alphabet (1 connection): AUTH with each candidate of a dictionary around the password ('', null bulk, every strict prefix, password+suffix, +NUL, NUL+, case variants, CRLF inside/after, leading space, the password), AUTH with 0 and 3 arguments, two-argument forms (4 user names x wrong passwords, wrong user + right password, ''/default + right password) and 8 data commands; ALL words of length <=%d on 1 connection, ALL words of length <=4 on 2 connections and <=3 on 3 connections over the reduced alphabet {AUTH P, AUTH '', AUTH prefix, GET, PING} x connection index; then seeded random words up to length 30. Monitor = per-connection shadow automaton {unauth,auth}; violations: a handler call or non-error reply to a non-AUTH request on an unauth connection, a wrong AUTH answered non-error, the exact one-argument AUTH not answered +OK, an authorized connection refused after a failed AUTH, authorization leaking between connections. distinct = the word; non-trivial = length >= 2", c08pass, l1)
 		},
 		Exhaustive:  func(string) bool { return false },
 		Assumptions: []string{"AUTH <''|default> <password> may be accepted or refused (the statement does not fix the configured user name); the shadow follows the reply", "QUIT before authentication is not generated"},
